@@ -99,31 +99,31 @@ Lemma all_three_rejected n d c : init_cutoff (Some n) (Some d) (Some c) = CfgErr
 Proof. unfold init_cutoff. destruct (check_positive _ _ _); reflexivity. Qed.
 Lemma step_alone_rejected d : init_cutoff None (Some d) None = CfgErr.
 Proof. unfold init_cutoff. destruct (check_positive _ _ _); reflexivity. Qed.
-Lemma nonpositive_nr_rejected n dr cutoff : (n <= 0)%Z -> init_cutoff (Some n) dr cutoff = CfgErr.
-Proof. intro H. unfold init_cutoff, check_positive. replace (n <=? 0)%Z with true by (symmetry; apply Z.leb_le; exact H). reflexivity. Qed.
+Lemma nonpositive_nr_rejected n dr cutoff : (n <= 1)%Z -> init_cutoff (Some n) dr cutoff = CfgErr.
+Proof. intro H. unfold init_cutoff, check_positive. replace (n <=? 1)%Z with true by (symmetry; apply Z.leb_le; exact H). reflexivity. Qed.
 Lemma nonpositive_dr_rejected nr d cutoff : le0 d = true -> init_cutoff nr (Some d) cutoff = CfgErr.
-Proof. intro H. unfold init_cutoff, check_positive. rewrite H. destruct nr as [n|]; [destruct (n <=? 0)%Z|]; reflexivity. Qed.
+Proof. intro H. unfold init_cutoff, check_positive. rewrite H. destruct nr as [n|]; [destruct (n <=? 1)%Z|]; reflexivity. Qed.
 Lemma nonpositive_cutoff_rejected nr dr c : le0 c = true -> init_cutoff nr dr (Some c) = CfgErr.
 Proof.
   intro H. unfold init_cutoff, check_positive. rewrite H.
-  destruct nr as [n|]; [destruct (n <=? 0)%Z|]; destruct dr as [d|]; try destruct (le0 d); reflexivity.
+  destruct nr as [n|]; [destruct (n <=? 1)%Z|]; destruct dr as [d|]; try destruct (le0 d); reflexivity.
 Qed.
-Lemma nr_dr_gives_cutoff n d : (0 < n)%Z -> le0 d = false -> le0 (cutoff_of n d) = false ->
+Lemma nr_dr_gives_cutoff n d : (1 < n)%Z -> le0 d = false -> le0 (cutoff_of n d) = false ->
   init_cutoff (Some n) (Some d) None = Ok (Some n, Some (cutoff_of n d)).
 Proof.
-  intros Hn Hd Hc. unfold init_cutoff, check_positive. replace (n <=? 0)%Z with false by (symmetry; apply Z.leb_gt; exact Hn).
+  intros Hn Hd Hc. unfold init_cutoff, check_positive. replace (n <=? 1)%Z with false by (symmetry; apply Z.leb_gt; exact Hn).
   rewrite Hd, Hc. reflexivity.
 Qed.
-Lemma cutoff_nr_kept n c : (0 < n)%Z -> le0 c = false -> init_cutoff (Some n) None (Some c) = Ok (Some n, Some c).
+Lemma cutoff_nr_kept n c : (1 < n)%Z -> le0 c = false -> init_cutoff (Some n) None (Some c) = Ok (Some n, Some c).
 Proof.
-  intros Hn Hc. unfold init_cutoff, check_positive. replace (n <=? 0)%Z with false by (symmetry; apply Z.leb_gt; exact Hn).
+  intros Hn Hc. unfold init_cutoff, check_positive. replace (n <=? 1)%Z with false by (symmetry; apply Z.leb_gt; exact Hn).
   rewrite Hc. reflexivity.
 Qed.
-Lemma cutoff_dr_gives_nr c d n : le0 c = false -> le0 d = false -> nr_of c d = Some n -> (0 < n)%Z ->
+Lemma cutoff_dr_gives_nr c d n : le0 c = false -> le0 d = false -> nr_of c d = Some n -> (1 < n)%Z ->
   init_cutoff None (Some d) (Some c) = Ok (Some n, Some c).
 Proof.
   intros Hc Hd Hn Hpos. unfold init_cutoff. unfold check_positive at 1. rewrite Hd, Hc. cbn [orb]. rewrite Hn.
-  unfold check_positive. replace (n <=? 0)%Z with false by (symmetry; apply Z.leb_gt; exact Hpos). rewrite Hd, Hc. reflexivity.
+  unfold check_positive. replace (n <=? 1)%Z with false by (symmetry; apply Z.leb_gt; exact Hpos). rewrite Hd, Hc. reflexivity.
 Qed.
 Lemma absent_values_pass : init_cutoff None None None = Ok (None, None).
 Proof. reflexivity. Qed.
